@@ -36,6 +36,10 @@ func (ts Targetables) Swap(i, j int) {
 }
 
 func (tb *Targetable) Copy() *Targetable {
+	if tb == nil {
+		return nil
+	}
+
 	newTb := &Targetable{
 		Address:      tb.Address,
 		ScopeId:      tb.ScopeId,
@@ -46,8 +50,9 @@ func (tb *Targetable) Copy() *Targetable {
 	}
 
 	if tb.NestedTargetables != nil {
+		newTb.NestedTargetables = make(Targetables, len(tb.NestedTargetables))
 		for i, ntb := range tb.NestedTargetables {
-			newTb.NestedTargetables[i] = ntb.NestedTargetables[i].Copy()
+			newTb.NestedTargetables[i] = ntb.Copy()
 		}
 	}
 
